@@ -146,6 +146,8 @@ def gen_inlines(c, depth=0, allow_link=True, allow_break=True, n=None, allow_htm
             elif allow_break and k < 22:
                 out.append(N('hard', style=t.choice(['  ', '   ', '\\']) if not c.canonical else t.choice(['  ', '\\']),
                              indent=0 if c.canonical else t.weighted([(4, 0), (1, 2)])))
+            elif _can_glue(items[i - 1], it) and not c.canonical and t.chance(45):
+                pass                     # no space between the two items
             else:
                 out.append(N('sp'))
         starts_line = (not out) or out[-1].kind in ('soft', 'hard')
@@ -159,6 +161,38 @@ def gen_inlines(c, depth=0, allow_link=True, allow_break=True, n=None, allow_htm
             out.append(N('sp'))
         out.append(it)
     return out
+
+
+_GLUE_KINDS = {'text', 'code', 'link', 'image', 'autolink', 'html'}
+
+
+def _can_glue(a, b):
+    """May b follow a without a space?  Only combinations whose reading does not depend on flanking rules."""
+    if a.kind not in _GLUE_KINDS or b.kind not in _GLUE_KINDS:
+        return False
+    if a.kind == 'text' and b.kind == 'text':
+        return False
+    if a.kind == 'code' and b.kind == 'code':
+        return False                      # the two delimiter runs would merge
+    if a.kind == 'text' and a.s.endswith('!') and b.kind in ('link', 'reflink'):
+        return False                      # would spell an image
+    if a.kind == 'html' or b.kind == 'html':
+        return a.kind in ('text', 'code') and b.kind in ('text', 'code', 'html') or b.kind in ('text',) and a.kind == 'html'
+    if b.kind == 'autolink' and a.kind == 'text':
+        return True
+    if a.kind == 'autolink' and b.kind == 'text':
+        return True
+    if a.kind in ('link', 'image') and b.kind in ('link', 'image'):
+        return b.kind == 'link' and False
+    if a.kind in ('link', 'image') and b.kind == 'text':
+        return True
+    if a.kind == 'text' and b.kind in ('link', 'image'):
+        return not (b.kind == 'link' and a.s.endswith('!'))
+    if a.kind == 'text' and b.kind == 'code':
+        return True
+    if a.kind == 'code' and b.kind == 'text':
+        return True
+    return False
 
 
 def gen_link(c, depth, image):
@@ -458,7 +492,11 @@ def need_blank(a, b):
     if ak == 'table' or bk == 'table':
         return True                      # rows continue / header could join a paragraph
     if ak in ('quote', 'list'):
-        return True                      # lazy continuation and item continuation
+        # a block that can interrupt a paragraph also ends a container without a blank line; two quotes or two
+        # lists would merge, everything else could be taken for (lazy) continuation text
+        if bk == ak or bk in ('quote', 'list') and ak == 'list':
+            return True
+        return not can_interrupt_paragraph(b)
     if ak == 'para' or ak == 'defs':
         return not can_interrupt_paragraph(b)
     if bk == 'icode':
